@@ -281,3 +281,18 @@ func init() {
 		}
 	}
 }
+
+func init() {
+	debugHooks["iseq"] = func(p *Prog, what string) {
+		ts := strings.TrimPrefix(what, "iseq:")
+		fn := p.Func("interpreter.isEqual")
+		m := NewInterpModel(p, "isEqual["+ts+"]")
+		m.EmitTests = true
+		m.KeepAsEvent = func(c *ssa.Function) bool { return false }
+		m.Explore(fn, []AV{Sym("a"), Sym("b")}, func(st *State) { st.Facts["type:a"] = StrV(ts) })
+		ws, _ := m.G.Words(100)
+		for _, w := range ws {
+			fmt.Println(normName(wordString(w)))
+		}
+	}
+}
